@@ -417,7 +417,9 @@ def run(run):
     run.compare("ser_f32", fcases, fi, M.call_many("ser_f32", [[a, b] for a, b in fcases]))
 
     lap('kernels')
-    oracle(run, reg, vals, bads, d18)
+    # cap-sized hash containers are too slow for the (quadratic) model in the quick tier: oracle only
+    extra = [] if T else [set(range(MAXA)), {i: None for i in range(MAXA)}, set(range(MAXA - 1)), {str(i): i for i in range(MAXA)}]
+    oracle(run, reg, vals + extra, bads, d18)
     lap('oracle')
     run.rules.append(RULE)
 
